@@ -89,6 +89,8 @@ HARNESS = ("hx.c", "hx_b64.c", "hx_tables.c", "hx_io.c", "hx_jwk.c", "hx_misc.c"
 def build(kind="asan", harness=HARNESS, verbose=False):
     """Returns dict(dir=..., objs=[...], jose=path, hx=path)."""
     cflags, ldflags = KINDS[kind]
+    if kind == "alloc":
+        harness = tuple(harness) + ("hx_alloc.c",)
     hsrcs = [os.path.join(VERIF, "harness", h) for h in harness]
     hdeps = [os.path.join(VERIF, "harness", f) for f in sorted(os.listdir(os.path.join(VERIF, "harness")))
              if f.endswith((".c", ".h"))]
@@ -137,13 +139,14 @@ def build(kind="asan", harness=HARNESS, verbose=False):
             hobjs.append(o)
             hc = KINDS["asan"][0] if kind == "alloc" else cflags
             jobs.append(["cc", "-std=gnu11", "-D_GNU_SOURCE", "-pthread", "-Wall", "-Wno-unused-function",
-                         "-D" + GUARD] + hc + inc +
+                         "-D" + GUARD] + (["-DHX_ALLOC"] if kind == "alloc" else []) + hc + inc +
                         ["-I" + os.path.join(VERIF, "harness"), "-c", s, "-o", o])
         with ThreadPoolExecutor(16) as ex:
             list(ex.map(run, jobs))
         dl = ["-ljansson", "-lcrypto", "-lz", "-lpthread", "-ldl", "-lm"]
         jose = os.path.join(out, "jose")
-        run(["cc"] + ldflags + cobjs + lobjs + dl + ["-o", jose])
+        if kind != "alloc":     # the redirected library objects only link together with the harness allocator
+            run(["cc"] + ldflags + cobjs + lobjs + dl + ["-o", jose])
         hx = os.path.join(out, "hx")
         run(["cc"] + ldflags + ["-rdynamic", "-Wl,-Map=" + hx + ".map"] + hobjs + hcobjs + lobjs + dl + ["-o", hx])
         info = dict(dir=out, objs=lobjs, jose=jose, hx=hx, kind=kind, key=key,
